@@ -64,7 +64,7 @@ def body(c):
         "TLC 1.8", "LoadContract.tla (outcome contract from the property text, "
         "vnaerr(3), vnacal(3), vnadata(3))",
         "clang ASan/UBSan (memory safety, UB); in-library allocation count after every "
-        "input; LeakSanitizer probe every 8 inputs, a window with a leak is re-run "
+        "input; LeakSanitizer probe every 16 inputs, a window with a leak is re-run "
         "with a probe after every input",
         "per-input alarm(20 s) for termination",
         "harness observations: readable (no error callback from any getter), "
